@@ -221,8 +221,9 @@ def check(src, rep):
         ex = c.a.get("expr")
         if not isinstance(ex, Expr):
             continue
-        for year in (1, 1970, 1999, 2000, 2021, 2099, 2100, 9999):
-            for (mo, d, h, mi, se) in ((1, 1, 0, 0, 0), (12, 31, 23, 59, 59), (2, 29, 12, 30, 30)):
+        for year in (1, 4, 1970, 1999, 2000, 2021, 2024, 2099, 2100, 9999):
+            leap_ = year % 4 == 0 and (year % 100 != 0 or year % 400 == 0)
+            for (mo, d, h, mi, se) in ((1, 1, 0, 0, 0), (12, 31, 23, 59, 59), (2, 29 if leap_ else 28, 12, 30, 30)):
                 ctx = Ctx({"year": year, "month": mo, "day_of_month": d, "day_of_week": 1, "hour": h, "minute": mi, "second": se, "hundredths_of_second": None, "deviation": None,
                            "clock_status_byte": 0xFF, "clock_status": None})
                 try:
